@@ -729,7 +729,7 @@ def tolerance(case):
     if c in ("Triangle", "Tetrahedron", "TriangularMesh"):
         th = edge_angle(case, o)
         D = max(np.linalg.norm(o - centre_of(case)), s)
-        tol += 1e3 * EPS / max(th, 1e-300) ** 2 + 1e2 * EPS * (D / s) ** 3
+        tol += 1e3 * EPS / max(th, 1e-150) ** 2 + 1e2 * EPS * (D / s) ** 3
     return tol
 
 
